@@ -27,6 +27,7 @@ type HarnessCfg struct {
 	MapOrder string         `json:"map_order,omitempty"`
 	MaxSec   int            `json:"max_sec,omitempty"`
 	What     string         `json:"what,omitempty"`
+	OptionalQuick []string  `json:"optional_labels_quick,omitempty"` // labels that need the thorough bounds to be reachable
 }
 
 type UnitCfg struct {
@@ -284,6 +285,9 @@ func cmdCheck(args []string) int {
 			if len(res.Problems) == 0 && res.Exhausted {
 				var missing []string
 				for _, l := range expect {
+					if *tier == "quick" && contains(h.OptionalQuick, l) {
+						continue
+					}
 					if res.AssertHit[l] == 0 && res.Reached[l] == 0 {
 						missing = append(missing, l)
 					}
@@ -529,4 +533,13 @@ func maxInt(a, b int) int {
 		return a
 	}
 	return b
+}
+
+func contains(l []string, s string) bool {
+	for _, x := range l {
+		if x == s {
+			return true
+		}
+	}
+	return false
 }
